@@ -141,9 +141,9 @@ structure InvW (s : Sys) : Prop where
 
 theorem wakeOne_invW {inp : RunInput} {s : Sys} {pst : RS} {p w : Name} {nd : Node} (h : InvW s)
     (hw : s.nodes w = some nd) : InvW (wakeOne inp s pst p w nd) := by
-  have hu := wokenNode_upd inp pst p nd
-  have a1 : AllA (setNode s w (wokenNode inp pst p nd)) := allA_setNode h.a1 ((h.a1 w nd hw).ofUpd hu)
-  have old : ∀ k y, (setNode s w (wokenNode inp pst p nd)).nodes k = some y → y.pc ≠ .done →
+  have hu := wokenF_upd inp s pst p nd
+  have a1 : AllA (setNode s w (wokenF inp s pst p nd)) := allA_setNode h.a1 ((h.a1 w nd hw).ofUpd hu)
+  have old : ∀ k y, (setNode s w (wokenF inp s pst p nd)).nodes k = some y → y.pc ≠ .done →
       ∃ x, s.nodes k = some x ∧ x.pc ≠ .done := by
     intro k y hk hpc
     by_cases e : k = w
